@@ -1509,9 +1509,14 @@ class Interp:
 
     def ev_Compare(self, n, env):
         l = self.ev(n.left, env)
+        if len(n.ops) == 1:
+            return self.cmp(n, l, n.ops[0], self.ev(n.comparators[0], env))     # may be an element-wise (boolean array) result
         for op, rn in zip(n.ops, n.comparators):
             r = self.ev(rn, env)
-            if not self.cmp(n, l, op, r):
+            res = self.cmp(n, l, op, r)
+            if isinstance(res, BoolArr):
+                raise PathRaise("ValueError(truth value of an array is ambiguous)", self.where(n))
+            if not res:
                 return False
             l = r
         return True
@@ -1862,6 +1867,10 @@ class Interp:
         return self.index(v, idx, n)
 
     def index(self, v, idx, node):
+        if isinstance(v, BoolArr) and isinstance(idx, int) and len(v.shape) == 1:
+            if not -len(v.flat) <= idx < len(v.flat):
+                raise PathRaise("IndexError", self.where(node))
+            return v.flat[idx]
         if isinstance(v, Obj):
             f_ = self.dunder(v, "__getitem__")
             if f_ is not None:
@@ -2438,6 +2447,11 @@ class Interp:
                 return fl[self.intval(args[0], n)]
             raise PathRaise("ValueError(item)", self.where(n))
         if name in ("max", "min"):
+            ax = kw.get("axis", args[0] if args else None)
+            if ax is not None and v.ndim == 2:
+                ax = self.intval(ax, n)
+                groups = [list(c) for c in zip(*v.data)] if ax in (0, -2) else [list(r) for r in v.data]
+                return Arr([self.builtin(name, [g], {}, n, {}) for g in groups], 1)
             return self.builtin(name, [v.flat()], {}, n, {})
         if name == "fill":
             x = self.scalar(args[0], n)
